@@ -272,10 +272,30 @@ func runCheck(o *Options, e *Engine, prop string) *CheckRun {
 			q := ob.Query(true)
 			var ans SolverAnswer
 			timeout := o.TimeoutS
+			if ob.cx.bc != nil && ob.cx.bc.C.TimeoutS > 0 {
+				timeout = ob.cx.bc.C.TimeoutS
+				if o.Tier == "thorough" {
+					timeout *= 3
+				}
+			}
 			if kfList.match("", ob) != nil && timeout > 6 {
 				timeout = 6 // recorded finding: expected to fail, do not spend the full budget on it
 			}
-			if ob.IsCover {
+			if ob.FullCover {
+				// vacuity sentinel: only a definite "unsat" matters
+				file := filepath.Join(dir, fmt.Sprintf("q%05d.smt2", i))
+				os.WriteFile(file, []byte(q), 0o644)
+				ans = runOne("z3", file, 4)
+				if ans.Status != "unsat" {
+					a2 := runOne("z3-new", file, 3)
+					if a2.Status == "unsat" || a2.Status == "sat" {
+						ans = a2
+					}
+				}
+				if ans.Status != "unsat" {
+					ans.Status = "sat" // not refuted: treated as reachable
+				}
+			} else if ob.IsCover {
 				file := filepath.Join(dir, fmt.Sprintf("q%05d.smt2", i))
 				os.WriteFile(file, []byte(q), 0o644)
 				ans = raceTwo(file, 8)
@@ -388,6 +408,52 @@ func runCheck(o *Options, e *Engine, prop string) *CheckRun {
 		}(i, ob)
 	}
 	wg2.Wait()
+	// second chance: obligations that only timed out are retried one after the other with a
+	// generous budget, so that machine load cannot turn a proof into an alarm
+	for i, ob := range all {
+		if ob.IsCover || ob.Trivial || ob.Status == "discharged" || ob.Status == "sat" || ob.Relaxed {
+			continue
+		}
+		if kfList.match("", ob) != nil {
+			continue
+		}
+		budget := o.TimeoutS * 4
+		if ob.cx.bc != nil && ob.cx.bc.C.TimeoutS > 0 {
+			budget = ob.cx.bc.C.TimeoutS * 3
+		}
+		var queries []string
+		if len(ob.parts) > 1 {
+			for pi := range ob.parts {
+				queries = append(queries, ob.QueryPart(pi))
+			}
+		} else if len(ob.cx.splits) > 0 {
+			for _, hyp := range ob.cx.splits[0] {
+				queries = append(queries, ob.QueryCase(true, hyp))
+			}
+		} else {
+			queries = []string{ob.Query(true)}
+		}
+		okAll := true
+		total := 0.0
+		for qi, q := range queries {
+			ans, _ := solve(dir, fmt.Sprintf("q%05d_retry%d", i, qi), q, budget, false)
+			total += ans.TimeS
+			if ans.Status != "unsat" {
+				okAll = false
+				if ans.Status == "sat" {
+					ob.Status = "sat"
+					ob.Model = ans.Output
+					ob.Output = ans.Output
+				}
+				break
+			}
+		}
+		if okAll {
+			ob.Status = "discharged"
+			ob.Solver = "retry"
+			ob.TimeS += total
+		}
+	}
 	// lemmas
 	for _, lm := range e.cs.Lemmas {
 		if lm.File == "" {
